@@ -541,6 +541,18 @@ SCRIPTS: list[tuple[str, dict]] = [
     ("wallet-reopened", _script(blobs=[3, 5], ops=[("blob", 0), ("reopen", "wallet"), ("blob", 1)])),
     ("large-content", _script(tokens=[(1, -1, 70000), (1, 0, 9000)], metas=[(1, 9000)],
                               ops=[("token", 0, 1), ("token", 1, 1), ("meta", 0, 0), ("att", 0, 0)])),
+    # re-delivery: a record that is already stored is inserted again (ignored), then new records follow in the same
+    # and in other tables - whatever bookkeeping an insert keeps about "nothing changed" must not leak into the next one
+    ("redelivered-metadata", _script(tokens=[(0, -1, 8), (0, 0, 8)], metas=[(0, 2), (1, 2)],
+                                     ops=[("token", 0, 1), ("meta", 0, 0), ("token", 1, 1), ("meta", 0, 0),
+                                          ("meta", 1, 0), ("att", 0, 0)])),
+    ("redelivered-token", _script(tokens=[(0, -1, 8), (0, 0, 8), (0, 1, 8)], metas=[(0, 2), (1, 2)],
+                                  ops=[("token", 0, 1), ("token", 1, 1), ("meta", 0, 0), ("token", 0, 1),
+                                       ("token", 2, 1), ("meta", 1, 0), ("token", 1, 1), ("att", 0, 0)])),
+    ("redelivered-attestation", _script(tokens=[(0, -1, 8), (0, 0, 8)], metas=[(0, 2), (1, 2)],
+                                        ops=[("token", 0, 1), ("meta", 0, 0), ("att", 0, 0), ("token", 1, 1),
+                                             ("meta", 1, 0), ("att", 0, 0), ("att", 1, 0), ("meta", 0, 0),
+                                             ("att", 1, 1), ("token", 0, 1)])),
 ]
 N_QUICK_SCRIPTS = len(SCRIPTS)
 # thorough tier only
